@@ -205,9 +205,12 @@ def coverage_run(ctx, scns):
                 files[os.path.basename(cur[1])] = dict(lines=int(m.group(2)), executed_pct=float(m.group(1)))
             cur = None
     rep.extra["core_line_coverage"] = files
-    rep.extra["functions_reached"] = {f: funcs.get(f, 0.0) for f in MUST_REACH}
-    for f in MUST_REACH:
-        rep.need("reached:" + f, 1 if funcs.get(f, 0.0) > 0 else 0, 1)
+    rep.extra["functions_reached"] = {f: funcs[f] for f in MUST_REACH if f in funcs}
+    rep.extra["core_functions_executed"] = sum(1 for v in funcs.values() if v > 0)
+    # reach obligation on line coverage per core file (function names may change under refactoring; the files are the anchor)
+    for fn, need in (("lltdBlock.c", 70), ("lltdAutomata.c", 70), ("lltdTlvOps.c", 50), ("lltdWire.c", 50), ("lltd_esp32.c", 40)):
+        got = files.get(fn, {}).get("executed_pct", 0.0)
+        rep.need("line-coverage:%s>=%d%%" % (fn, need), int(got), need)
 
 
 def run(ctx):
